@@ -17,6 +17,8 @@ from props import c01, c05
 LEVEL = "other"
 LEAN_PROPS = ["FastTicc.Props.C15", "FastTicc.Props.C01", "FastTicc.Props.C05"]
 LEAN_HELPERS = ["FastTicc.Proofs.MainLoop"]
+LEAN_TRANSLATED = {"FastTicc.Props.TrViterbi": ["assign_point_cluster_labels"],
+                   "FastTicc.Props.TrLoglik": ["point_log_likelihood_fast", "all_points_all_clusters_log_likelihood_fast"]}
 RULE = ("execution modes {JIT compiled, NUMBA_DISABLE_JIT=1, Numba not importable} in separate processes, JIT at thread "
         "counts {1,4} (thorough: {1,2,4,8,16}); kernel inputs: dyadic cost tables (C / Fortran / strided / read-only, "
         "scalar / int / vector beta), likelihood models on dyadic data, and complete small runs; non-trivial = table with "
